@@ -1228,3 +1228,42 @@ def rule_start_unwind(prog, res, rule="R-START-UNWIND"):
                          "acquire_start's failure exit %s when %s fails: the sink / filter threads of the streams started so far keep running with no source to end them, "
                          "their storage stays started, and acquire_stop, acquire_abort and acquire_shutdown wait for them for ever" % (msg, name), {"path_blocks": w})
     return n
+
+
+def rule_register_early(prog, res, rule="R-REGISTER-EARLY"):
+    """A queue without readers never makes its writer wait (channel_write_map's no-reader branch wraps
+    freely).  A worker that must see every byte of its input queue therefore has to be registered with it
+    before a writer can exist - in the function that creates the queue - and not whenever its thread first
+    gets to run: after channel_new(&self->in, ..) every path to the function's exit passes
+    channel_read_map(&self->in, &self->reader)."""
+    n = 0
+    for f in prog.all_funcs():
+        if not f.blocks:
+            continue
+        for b, i, s in f.all_stmts():
+            for c in calls(s, "channel_new"):
+                q = ir.ap(ir.strip(c["args"][0])) or ""
+                if not q.startswith("&") or not q.endswith("in"):
+                    continue
+                owner = q[1:].rsplit("in", 1)[0]          # 'self->'
+                res.touched(f)
+
+                def registers(x, q=q, owner=owner):
+                    for cc in calls(x, "channel_read_map"):
+                        a = cc.get("args", [])
+                        if len(a) >= 2 and (ir.ap(ir.strip(a[0])) or "") == q and (ir.ap(ir.strip(a[1])) or "") == "&" + owner + "reader":
+                            return True
+                    return False
+                ok, w = paths.all_paths_pass(f, (b.id, i), "exit", registers)
+                inst = "%s: the reader of the queue it creates is registered before any writer can exist" % f.name
+                n += 1
+                if ok:
+                    res.oblige(rule, inst, True, "channel_read_map(%s, &%sreader) on every path after channel_new" % (q, owner), f.loc(s))
+                else:
+                    res.fail(rule, inst, "%s|%s" % (rule, f.name), f.loc(s),
+                             "%s creates the queue %s and returns without registering %sreader with it: the reader registers with its thread's first read, and until then "
+                             "the writer never waits - frames committed beyond one ring capacity before that read overwrite unread frames (lost silently, status stays Ok)"
+                             % (f.name, q[1:], owner), {"path_blocks": w})
+    if n == 0:
+        raise AnalysisBroken("no channel_new(&x->in, ..) found")
+    return n
